@@ -426,6 +426,9 @@ def parse_opcode(p: Parser) -> OpcodeAstNode:
     addressing_mode, inner_index, operand = parse_operand_and_addressing(addressing_mode, opcode, p)
 
     if accept_token(p.current(), TokenType.ADDRESSING_MODE_INDEX):
+        if inner_index is not None and inner_index != "s":
+            # only (sr,s),y combines an inner and an outer index; (dp,x),y is not an addressing mode
+            raise ParserSyntaxError("Invalid addressing mode", p.current())
         index = p.next().value.lower()
         addressing_mode = index_map[addressing_mode]
 
